@@ -424,7 +424,7 @@ var fileCases = []string{
 	"cli-convert-ok", "cli-open-missing", "cli-write-devfull", "cli-write-missing-dir", "cli-merge-second-missing",
 	// every subcommand: an input that opens but fails while it is parsed (over-long line behind three good cues), a
 	// destination on a full device, and the fault-free run (exit 0 and a complete file)
-	"cli-all-bad-input", "cli-all-devfull", "cli-all-ok",
+	"cli-all-bad-input", "cli-all-devfull", "cli-all-ok", "cli-convert-every-format",
 	// merge of a failing input with a large good one, in both orders (whichever is opened or finishes first)
 	"cli-merge-bad-first-large-second", "cli-merge-large-first-bad-second",
 }
@@ -593,6 +593,24 @@ func checkC18File(name, dir string) (v *Violation, note string) {
 				args := append(append([]string{}, sub...), "-i", in, "-o", p)
 				if rc, _ := run(args...); rc == 0 {
 					return mk("CLI " + sub[0] + " to a full device (ENOSPC) exited 0"), ""
+				}
+			}
+		case "cli-convert-every-format":
+			// an exit status of 0 promises a complete file whatever the output format (a conversion the library cannot
+			// do - SSA output of an input without metadata panics today - must not end in exit 0 and a stub)
+			for _, ext := range []string{"srt", "vtt", "ssa", "ass", "stl", "ttml"} {
+				outp := filepath.Join(dir, "every."+ext)
+				rc, _ := run("convert", "-i", in, "-o", outp)
+				if rc != 0 {
+					continue
+				}
+				b, _ := os.ReadFile(outp)
+				w := map[string]string{"ass": "ssa"}[ext]
+				if w == "" {
+					w = ext
+				}
+				if why := completeSink(w, b, 3, "2"); why != "" {
+					return mk("CLI convert to ." + ext + " exited 0 but " + why), ""
 				}
 			}
 		case "cli-all-ok":
@@ -1048,6 +1066,9 @@ func RunC18(cfg Config) (*ShardResult, error) {
 							}
 						}
 					}
+					// the failing call takes all its bytes and returns the error with the full count (sticky and transient)
+					fs = append(fs, simio.WriteFault{Offset: k, Kind: simio.WriteFaultKinds[k%len(simio.WriteFaultKinds)], Full: true},
+						simio.WriteFault{Offset: k, Kind: simio.WriteFaultKinds[(k+1)%len(simio.WriteFaultKinds)], Full: true, Transient: true})
 				} else {
 					fs = append(fs, simio.WriteFault{Offset: k, Kind: simio.WriteFaultKinds[(k/2+ki)%len(simio.WriteFaultKinds)], Short: k%2 == 0, Transient: (k/4+ki)%2 == 1})
 				}
@@ -1074,6 +1095,9 @@ func RunC18(cfg Config) (*ShardResult, error) {
 						}
 						if f.Transient {
 							res.Probes["transient_write_fault"]++
+						}
+						if f.Full {
+							res.Probes["full_count_with_error"]++
 						}
 						if seen.add(Key64("write", sh, writer, fmt.Sprint(f), medium)) {
 							res.Distinct++
@@ -1138,7 +1162,7 @@ func RunC18(cfg Config) (*ShardResult, error) {
 				if k < 0 {
 					continue
 				}
-				f := simio.WriteFault{Offset: k, Kind: simio.WriteFaultKinds[fi%len(simio.WriteFaultKinds)], Short: fi%2 == 0}
+				f := simio.WriteFault{Offset: k, Kind: simio.WriteFaultKinds[fi%len(simio.WriteFaultKinds)], Short: fi%2 == 0, Full: fi == 6}
 				medium := ""
 				if fi%3 == 2 {
 					medium = "rich"
